@@ -201,6 +201,8 @@ type layOpt struct {
 	Hazard   bool // force exactly one hazard site (HazAt) into a known-finding shape
 	HazAt    int
 	NoEOFNL  bool // allowed to drop the final newline
+	Over     bool // model-valid layouts outside the property's grammar: later statements of a block indented more than the block
+	// (but left of what the previous statement left open), else/elif left of the enclosing block
 }
 
 type lMark struct {
@@ -442,17 +444,26 @@ func (l *lay) blockInline(sts []*lSt, parent int) int {
 }
 
 func (l *lay) stmts(sts []*lSt, c int, parent int, ownFirst bool) {
+	prevBd := 0
 	for i, s := range sts {
 		if i > 0 {
 			l.eol()
-			l.indent(c)
+			ci := c
+			if l.o.Over && prevBd > c+1 && l.p(1, 2) {
+				// Layout.wf_rest: not left of the block, strictly left of what the previous statement left open
+				ci = c + 1 + l.r.Intn(prevBd-c-1)
+				l.f("over:later-statement-right-of-block")
+			}
+			l.indent(ci)
 		}
 		l.marks = append(l.marks, lMark{LineStart: l.ls, Col: c, Parent: parent, Index: i, Count: len(sts), Own: i > 0 || ownFirst})
-		l.stmt(s, c)
+		prevBd = l.stmt(s, c)
 	}
 }
 
-func (l *lay) stmt(s *lSt, c int) {
+// stmt renders a statement of the block at column c; it returns the column of the outermost block the
+// statement leaves open at its end (0: none), cf. Layout.stmt_bd.
+func (l *lay) stmt(s *lSt, c int) int {
 	switch s.K {
 	case "let":
 		l.put("let")
@@ -468,7 +479,7 @@ func (l *lay) stmt(s *lSt, c int) {
 			l.f("let-rhs:same-line")
 			l.gap()
 		}
-		l.expr(s.E, c)
+		return l.expr(s.E, c)
 	case "letfn":
 		l.put("let")
 		l.gap()
@@ -478,28 +489,29 @@ func (l *lay) stmt(s *lSt, c int) {
 		if l.p(1, 5) {
 			l.f("fn-body:same-line")
 			l.gap()
-			l.blockInline(s.Body, c)
-		} else {
-			l.f("fn-body:next-line")
-			l.blockNext(s.Body, c)
+			return l.blockInline(s.Body, c)
 		}
+		l.f("fn-body:next-line")
+		return l.blockNext(s.Body, c)
 	default:
-		l.expr(s.E, c)
+		return l.expr(s.E, c)
 	}
 }
 
-func (l *lay) expr(e *lEx, off int) {
+func (l *lay) expr(e *lEx, off int) int {
 	switch e.K {
 	case "atom":
 		l.words(e.W)
+		return 0
 	case "if":
-		l.ifExpr(e, off)
+		return l.ifExpr(e, off)
 	case "match":
 		l.put("match")
 		l.gap()
 		l.words(e.W)
 		l.gap()
 		l.put("with")
+		bd := 0
 		for _, a := range e.Arms {
 			l.eol()
 			l.indent(off + l.n(4))
@@ -510,17 +522,18 @@ func (l *lay) expr(e *lEx, off int) {
 			l.put("->")
 			if l.p(1, 2) {
 				l.f("arm-body:next-line")
-				l.blockAt(a.Body, off+4+l.r.Intn(8), off)
+				bd = l.blockAt(a.Body, off+4+l.r.Intn(8), off)
 			} else if l.o.Canon && !lSimple(a.Body) {
-				l.blockAt(a.Body, off+2, off)
+				bd = l.blockAt(a.Body, off+2, off)
 			} else {
 				l.f("arm-body:same-line")
 				l.gap()
-				l.blockInline(a.Body, off)
+				bd = l.blockInline(a.Body, off)
 			}
 		}
+		return bd
 	case "pipe":
-		l.expr(e.Head, off)
+		bd := l.expr(e.Head, off)
 		for _, st := range e.Stages {
 			if l.o.Canon || l.p(1, 2) {
 				l.f("pipe:break")
@@ -532,8 +545,9 @@ func (l *lay) expr(e *lEx, off int) {
 			}
 			l.put("|>")
 			l.gap()
-			l.expr(st, off)
+			bd = l.expr(st, off)
 		}
+		return bd
 	case "lam":
 		l.words(e.W)
 		if len(e.W) > 0 {
@@ -569,6 +583,7 @@ func (l *lay) expr(e *lEx, off int) {
 			l.gap()
 			l.words(e.Post)
 		}
+		return 0
 	default:
 		panic("expr kind " + e.K)
 	}
@@ -588,7 +603,7 @@ func (l *lay) hazHit(kind string) bool {
 	return false
 }
 
-func (l *lay) ifExpr(e *lEx, off int) {
+func (l *lay) ifExpr(e *lEx, off int) int {
 	simpleAll := lSimple(e.Then) && (e.Else == nil || lSimple(e.Else))
 	for _, ei := range e.Elifs {
 		simpleAll = simpleAll && lSimple(ei.Body)
@@ -616,7 +631,7 @@ func (l *lay) ifExpr(e *lEx, off int) {
 		l.put("else")
 		l.gap()
 		l.expr(e.Else[0].E, off)
-		return
+		return 0
 	}
 	inlineThenHaz := lSimple(e.Then) && (e.Else != nil || len(e.Elifs) > 0) && l.hazHit("inline-then-newline-else")
 	if !inlineThenHaz && len(e.Elifs) == 0 && simpleAll && condOne && l.p(1, 2) {
@@ -630,7 +645,7 @@ func (l *lay) ifExpr(e *lEx, off int) {
 			l.gap()
 			l.expr(e.Else[0].E, off)
 		}
-		return
+		return 0
 	}
 	l.f("if:multi-line")
 	head("if", e.Cond)
@@ -642,7 +657,17 @@ func (l *lay) ifExpr(e *lEx, off int) {
 	} else {
 		prev = l.blockNext(e.Then, off)
 	}
-	kwcol := func() int { return off + l.n(prev-off) }
+	lowKw := false
+	kwcol := func() int {
+		lowKw = false
+		if l.o.Over && off > 0 && l.p(1, 3) {
+			lowKw = true
+			// 'else' / 'elif' only has to be left of the block before it (Layout.wf_ifrest)
+			l.f("over:else-left-of-enclosing-block")
+			return l.r.Intn(off)
+		}
+		return off + l.n(prev-off)
+	}
 	for i, ei := range e.Elifs {
 		l.eol()
 		l.indent(kwcol())
@@ -655,7 +680,7 @@ func (l *lay) ifExpr(e *lEx, off int) {
 			l.put("else")
 			l.gap()
 			l.expr(e.Else[0].E, off)
-			return
+			return 0
 		}
 		prev = l.blockNext(ei.Body, off)
 	}
@@ -663,15 +688,19 @@ func (l *lay) ifExpr(e *lEx, off int) {
 		l.eol()
 		l.indent(kwcol())
 		l.put("else")
-		if l.p(1, 3) {
+		if !lowKw && l.p(1, 3) {
 			l.f("else-body:same-line")
 			l.gap()
-			l.blockInline(e.Else, off)
+			prev = l.blockInline(e.Else, off)
 		} else {
 			l.f("else-body:next-line")
-			l.blockNext(e.Else, off)
+			prev = l.blockNext(e.Else, off)
 		}
 	}
+	if inlineThenHaz && e.Else == nil && len(e.Elifs) == 0 {
+		return 0
+	}
+	return prev
 }
 
 func (l *lay) top(t *lTop) {
